@@ -132,6 +132,24 @@ def run(F, ck, tier):
         nonvac = sum(1 for v in list(pa.values()) + list(pb.values()) for r in v if 'A' in r)
         ck.ob('R16.4', 'walk:non-vacuous', nonvac >= 6, '%d renderings mention an element of the arity schedule' % nonvac if nonvac >= 6 else
               'the abstraction no longer recognises the arity-schedule element in the domain-walk arguments (%d renderings): the comparison would be vacuous' % nonvac)
+    # R16.5 the public-input digest is the same function on the plain, compressed and in-circuit paths
+    ck.rule('R16.5', 'ProofWithPublicInputs::get_public_inputs_hash, CompressedProofWithPublicInputs::get_public_inputs_hash, the in-circuit verifier and the circuit builder hash the public inputs with the same (unpadded) hash function')
+    from .facts import walk as _walk, parse_path as _pp, callee as _callee
+    HASHES = {'hash_no_pad', 'hash_pad', 'hash_or_noop', 'hash_n_to_hash_no_pad', 'hash_n_to_m_no_pad', 'two_to_one'}
+    sites = []
+    for q, crate_ in (('ProofWithPublicInputs::get_public_inputs_hash', 'plonky2'), ('CompressedProofWithPublicInputs::get_public_inputs_hash', 'plonky2'), ('CircuitBuilder::verify_proof', 'plonky2')):
+        c_ = [f for f in F.find(q, crate=crate_) if f.body is not None]
+        if len(c_) != 1:
+            ck.ob('R16.5', 'anchor:' + q, False, 'ANCHOR-MISSING %s' % q)
+            continue
+        hs = sorted({(_pp(_callee(x) or '')[1] or x.get('n')) for x in _walk(c_[0].body) if x.get('k') in ('Call', 'MCall') and (_pp(_callee(x) or '')[1] or x.get('n')) in HASHES})
+        sites.append((c_[0], hs))
+    norm = lambda h: 'hash_no_pad' if h in ('hash_no_pad', 'hash_n_to_hash_no_pad') else h
+    kinds = {tuple(sorted(norm(h) for h in hs)) for _, hs in sites}
+    okh = len(sites) == 3 and kinds == {('hash_no_pad',)}
+    ck.ob('R16.5', 'pi-hash:siblings', okh, 'all three use the unpadded sponge hash' if okh else
+          'the public-input digest is computed differently on the plain / compressed / in-circuit paths: %s - the compressed path then derives other challenges than the proof was made with (valid proofs fail to decompress or verify)' %
+          '; '.join('%s: %s' % (f.qual, hs) for f, hs in sites), sites[1][0].file if len(sites) > 1 else None)
     ck.decided += ['non-query fields carried verbatim', 'shared challenge derivation and final verifier', 'schedule traversed in order', 'inference replays the verifier walk']
     ck.undecided += ['round-trip equality of values', 'index-collision handling in path compression (values)']
     return 'Decides structural necessary conditions of C16. Round-trip value equality is not decided.'
